@@ -4,8 +4,14 @@
                 value stored or inserted is never the literal's own object; a pending return value is adopted (flag reset).
    MODE 2 (R2): the real Inline_Array_AST_Node::eval_internal with K abstract element children: every element goes through
                 clone_if_necessary exactly once, in order, into a fresh vector; the node object is bit-identical afterwards.
-   MODE 3 (R3): the real Constant_AST_Node::eval_internal: returns the stored constant, node bit-identical afterwards. */
+   MODE 3 (R3): the real Constant_AST_Node::eval_internal: returns the stored constant, node bit-identical afterwards.
+   MODE 4 (R4): the real Assign_Decl_AST_Node::eval_internal (`var x = e`): the variable is bound to the copy clone_if_necessary made of
+                e's value - never to the value e produced (for a literal: the Constant node's own object) - under the declared name.
+   MODE 5 (R5): the real Inline_Map_AST_Node::eval_internal with K abstract pairs: every value goes through clone_if_necessary once,
+                in order; the map receives the copies; node unchanged. */
+#ifndef NNODES
 #define NNODES 6
+#endif
 #include "node_model.h"
 static struct bv_data in_data, clone_data, newbox_data; static int ev_numclone, ev_boolbox, ev_strbox, ev_call, ev_reset; static char* call_arg;
 void F__ZN10chaiscript12Boxed_Number5cloneERKNS_11Boxed_ValueE(char* sret, char* bv) { ev_numclone++; ((struct BV*)sret)->p = (char*)&clone_data; ((struct BV*)sret)->pn = 0; }
@@ -78,6 +84,70 @@ int main(void) {
   __CPROVER_assert(!__exc_pending && out.p == (char*)&cd, "C08: a literal evaluates to its stored constant");
   __CPROVER_assert(memcmp(&before, &C, sizeof before) == 0, "C08: evaluating a literal leaves the syntax tree node unchanged");
   __CPROVER_assert(0, "witness: constant evaluated");
+  return 0;
+}
+#elif MODE == 4
+static int clone_calls; static char* clone_arg; static struct bv_data the_clone; static int n_add; static char* add_name; static char* add_val; static int add_conflict;
+void CLONE_IF(char* sret, char* incoming, char* loc, char* st) { clone_calls++; clone_arg = ((struct BV*)incoming)->p; ((struct BV*)sret)->p = (char*)&the_clone; ((struct BV*)sret)->pn = 0; }
+void ADD_OBJECT(char* self, char* name, char* bv) { n_add++; add_name = name; add_val = ((struct BV*)bv)->p; }
+void F__ZNK10chaiscript4eval13AST_Node_ImplINS0_6TracerIJNS0_18Noop_Tracer_DetailEEEEE4evalERKNS_6detail14Dispatch_StateE(char* sret, char* self, char* st) {
+  int idx = (int)((struct node*)self - nodes); LOG(100 + idx);
+  if (behav[idx] != B_RET) { child_throw(behav[idx], TI_EVAL_ERROR, TI_BOXED_VALUE); return; }
+  ((struct BV*)sret)->p = valpool[idx]; ((struct BV*)sret)->pn = 0; }
+void NODE_EVAL(char* sret, char* self, char* st);
+struct ad_node { struct node base; uint64_t m_loc; };
+int main(void) {
+  static struct ad_node A; static char* a_children[2];
+  A.base.identifier = AST_Assign_Decl; A.base.text.p = A.base.text.buf; a_children[0] = (char*)&nodes[1]; a_children[1] = (char*)&nodes[2];
+  A.base.children.b = (char*)&a_children[0]; A.base.children.e = (char*)&a_children[2]; A.base.children.c = A.base.children.e;
+  nodes[1].text.p = nodes[1].text.buf; nodes[1].text.n = 1; nodes[1].text.buf[0] = 'x';
+  for (int i = 0; i < NNODES; i++) { unsigned b = nondet_u32(); __CPROVER_assume(b < B_NKINDS); behav[i] = (int)b; }
+  struct node before = A.base; static char state[SZ_Dispatch_State]; struct BV out = { 0, 0 };
+  NODE_EVAL((char*)&out, (char*)&A, state);
+  __CPROVER_assert(memcmp(&before, &A.base, sizeof before) == 0, "C08: evaluating a declaration leaves the syntax tree node unchanged");
+  if (behav[2] != B_RET) { __CPROVER_assert(__exc_pending && __exc_obj == thrown_obj && n_add == 0, "C10: a failing initializer declares nothing and its exception leaves unchanged"); __CPROVER_assert(0, "witness: initializer throws"); return 0; }
+  __CPROVER_assert(!__exc_pending && clone_calls == 1 && clone_arg == valpool[2], "C08: the initializer's value goes through the copy rule exactly once");
+  __CPROVER_assert(n_add == 1 && add_val == (char*)&the_clone && add_name == (char*)&nodes[1].text, "C08: `var x = e` binds x to the COPY of e's value (never to the object e produced - for a literal that is the syntax tree's own constant), under the declared name");
+  __CPROVER_assert(out.p == (char*)&the_clone && ev_reset == 1, "C03: the declaration yields the new variable; its return-value mark is cleared");
+  __CPROVER_assert(0, "witness: declared");
+  return 0;
+}
+#elif MODE == 5
+static int clone_calls; static char* clone_args[4]; static struct bv_data clones[4]; static int n_ins; static char* ins_val[4]; static int n_cast; static char* cast_arg[4]; static int cv_calls; static struct bv_data map_box;
+void CLONE_IF(char* sret, char* incoming, char* loc, char* st) { if (clone_calls < 4) clone_args[clone_calls] = ((struct BV*)incoming)->p; ((struct BV*)sret)->p = (char*)&clones[clone_calls & 3]; ((struct BV*)sret)->pn = 0; clone_calls++; }
+/* boxed_cast<std::string>(key value): a recorder that yields some short string */
+void CAST_STRING(char* sret, char* bv, char* conv) { if (n_cast < 4) cast_arg[n_cast] = ((struct BV*)bv)->p; n_cast++; struct sso_string* s = (struct sso_string*)sret; s->p = s->buf; s->n = 1; s->buf[0] = 'k'; s->buf[1] = 0; }
+struct pair_sb { struct sso_string first; struct BV second; };
+MAP_INSERT_RET MAP_INSERT(char* map, char* pair) { if (n_ins < 4) ins_val[n_ins] = ((struct pair_sb*)pair)->second.p; n_ins++; MAP_INSERT_RET r; r.f0 = 0; r.f1 = 1; return r; }   /* pair<iterator,bool> in registers */
+/* the per-thread conversion-saves table the engine consults before a typed cast: an opaque object here */
+static char conv_saves[64] __attribute__((aligned(8)));
+char* CONV_SAVES(char* map, char* key) { return conv_saves; }
+uint32_t F___cxa_thread_atexit(char* f, char* o, char* d) { return 0; }
+void CONST_VAR_MAP(char* sret, char* m) { cv_calls++; ((struct BV*)sret)->p = (char*)&map_box; ((struct BV*)sret)->pn = 0; }
+void F__ZNK10chaiscript4eval13AST_Node_ImplINS0_6TracerIJNS0_18Noop_Tracer_DetailEEEEE4evalERKNS_6detail14Dispatch_StateE(char* sret, char* self, char* st) {
+  int idx = (int)((struct node*)self - nodes); LOG(100 + idx);
+  if (behav[idx] != B_RET) { child_throw(behav[idx], TI_EVAL_ERROR, TI_BOXED_VALUE); return; }
+  ((struct BV*)sret)->p = valpool[idx]; ((struct BV*)sret)->pn = 0; }
+void NODE_EVAL(char* sret, char* self, char* st);
+struct map_node { struct node base; uint64_t m_loc; };
+int main(void) {
+  /* M -> [node 0 (pair list)] ; node 0 -> pairs 1..KE ; pair i -> [key node 3+2i-... , value node] : key of pair i = node 2+2i-1 ... laid out as: pair i (1..KE) children = nodes[KE+2i-1], nodes[KE+2i] */
+  static struct map_node M; static char* m_children[1];
+  node_set_children(0, KE >= 1 ? 1 : -1, KE >= 2 ? 2 : -1, -1, -1);
+  for (int i = 1; i <= KE; i++) node_set_children(i, KE + 2 * i - 1, KE + 2 * i, -1, -1);
+  M.base.identifier = AST_Inline_Map; M.base.text.p = M.base.text.buf; m_children[0] = (char*)&nodes[0];
+  M.base.children.b = (char*)&m_children[0]; M.base.children.e = (char*)&m_children[1]; M.base.children.c = M.base.children.e;
+  for (int i = 0; i < NNODES; i++) { unsigned b = nondet_u32(); __CPROVER_assume(b < B_NKINDS); behav[i] = (int)b; }
+  struct node before = M.base; static char state[SZ_Dispatch_State] __attribute__((aligned(8))); static char engine[64] __attribute__((aligned(8))); *(char**)state = engine; struct BV out = { 0, 0 };
+  NODE_EVAL((char*)&out, (char*)&M, state);
+  __CPROVER_assert(memcmp(&before, &M.base, sizeof before) == 0, "C08: evaluating an inline map literal leaves the syntax tree node unchanged");
+  int bad = 0; for (int i = KE; i >= 1; i--) if (behav[KE + 2 * i - 1] != B_RET || behav[KE + 2 * i] != B_RET) bad = i;
+  if (bad) { __CPROVER_assert(__exc_pending && cv_calls == 0, "C10: a failing key or value aborts the literal"); __CPROVER_assert(0, "witness: pair throws"); return 0; }
+  __CPROVER_assert(!__exc_pending && cv_calls == 1 && out.p == (char*)&map_box, "C08: each evaluation of a map literal builds a fresh map");
+  __CPROVER_assert(clone_calls == KE && n_ins == KE && n_cast == KE, "C08: every value of a map literal is copied exactly once and inserted once");
+  for (int i = 0; i < KE; i++) { __CPROVER_assert(clone_args[i] == valpool[KE + 2 * (i + 1)] && cast_arg[i] == valpool[KE + 2 * (i + 1) - 1], "C08: keys and values are taken from their own expressions, in order");
+                                 __CPROVER_assert(ins_val[i] == (char*)&clones[i], "C08: the map holds the copies, not the values the expressions produced"); }
+  __CPROVER_assert(0, "witness: literal built");
   return 0;
 }
 #endif
